@@ -150,7 +150,14 @@ func forConsumeLabels(f *forExpander) forStateFn {
 			f.next()
 			return forConsumeLabels
 		}
-	} else if f.nextToken.typ == tokNewline || f.nextToken.typ == tokComment || f.nextToken.typ == tokColon {
+	} else if f.nextToken.typ == tokComment {
+		// a comment between the labels and their instruction stays in the
+		// stream (it may be a ;name, ;author or ;strategy line)
+		f.tokens <- f.nextToken
+		f.tokens <- token{tokNewline, "\n"}
+		f.next()
+		return forConsumeLabels
+	} else if f.nextToken.typ == tokNewline || f.nextToken.typ == tokColon {
 		f.next()
 		return forConsumeLabels
 	} else {
